@@ -42,6 +42,19 @@ Theorem C09_preimage_spec_gen : forall (count_dups empty_hashed : bool) (r : red
 Proof. exact preimage_spec_gen. Qed.
 Print Assumptions C09_preimage_spec_gen.
 
+
+(* the same with key / bootstrap witnesses in the witness set (fields 0 and 2 do not enter the hash) *)
+Theorem C09_preimage_spec_with : forall (count_dups empty_hashed : bool) (vk bo : option bytes) (r : redeemers) (cm : costmdls)
+    (d : option plutus_list),
+  helper_out_of_scope r d = false ->
+  (count_dups = true -> known_dup_definite d = false) ->
+  (empty_hashed = true -> known_empty_datums d = false) ->
+  let fs := ws_fields (helper_witness_set_with vk bo r d) in
+  script_data_preimage_gen count_dups empty_hashed r cm d =
+  ledger_preimage (assoc_field 5 fs) (assoc_field 4 fs) (spec_views (helper_langs r cm) cm).
+Proof. exact preimage_spec_with. Qed.
+Print Assumptions C09_preimage_spec_with.
+
 (* the defects: with the header counting the un-deduplicated list / an empty datum list being hashed, the
    unrestricted statement is false (witnesses; they stay valid after the repair because they speak about `_gen true`) *)
 Theorem C09_preimage_refuted_dup_length :
@@ -98,7 +111,7 @@ Print Assumptions C09_views_only_used.
    paths (calc_script_data_hash / get_witness_set) and the two serialisation paths (to_set_bytes /
    serialize_as_set(false) on the de-duplicated clone) agree *)
 Theorem C09_same_bytes : forall (H : bytes -> bytes) (b0 : builder) (cm : costmdls) (b1 b : builder) (t : tx),
-  wf_builder b0 ->
+  wf_builder b0 -> known_stale_lang b0 = false ->
   calc_script_data_hash H b0 cm = Ok b1 ->
   (has_script_items b0 = true \/ b_script_data_hash b0 = None) ->
   script_view b = script_view b0 -> b_script_data_hash b = b_script_data_hash b1 ->
@@ -116,6 +129,7 @@ Theorem C09_same_bytes_history : forall (H : bytes -> bytes) (ops : list op) (cm
   let b := fst (run H builder_new ops) in
   is_ok (calc_script_data_hash H b0 cm) = true ->
   has_script_items b0 || is_none (b_script_data_hash b0) = true ->
+  known_stale_lang b0 = false ->
   build_tx H b = Ok t ->
   let fs := ws_fields (tx_witness_set t) in
   tx_script_data_hash t = ledger_script_integrity H (assoc_field 5 fs) (assoc_field 4 fs) (langs_used b) cm.
@@ -124,11 +138,21 @@ Print Assumptions C09_same_bytes_history.
 
 (* the preimage itself (not only its hash) is the ledger's *)
 Theorem C09_calc_preimage : forall (H : bytes -> bytes) (b : builder) (cm : costmdls) (pre : bytes),
-  wf_builder b -> calc_preimage b cm = Ok (Some pre) ->
+  wf_builder b -> known_stale_lang b = false -> calc_preimage b cm = Ok (Some pre) ->
   let fs := ws_fields (get_witness_set b) in
   pre = ledger_preimage (assoc_field 5 fs) (assoc_field 4 fs) (spec_views (langs_used b) cm).
-Proof. intros H b cm pre Hwf Hc. destruct (calc_preimage_spec H b cm _ Hwf Hc) as [_ [Hp _]]. exact Hp. Qed.
+Proof. intros H b cm pre Hwf Hs Hc. destruct (calc_preimage_spec H b cm _ Hwf Hs Hc) as [_ [Hp _]]. exact Hp. Qed.
 Print Assumptions C09_calc_preimage.
+
+
+(* the heart of C09_same_bytes for both values of the switch stale_langs_counted (languages from the sub-builders'
+   registrations / from the collected witnesses); with the switch off the class is empty (known_stale_lang_gen false = false) *)
+Theorem C09_calc_preimage_gen : forall (H : bytes -> bytes) (counted : bool) (b : builder) (cm : costmdls) (pre : bytes),
+  wf_builder b -> known_stale_lang_gen counted b = false -> calc_preimage_gen counted b cm = Ok (Some pre) ->
+  let fs := ws_fields (get_witness_set b) in
+  pre = ledger_preimage (assoc_field 5 fs) (assoc_field 4 fs) (spec_views (langs_used b) cm).
+Proof. intros H c b cm pre Hwf Hs Hc. destruct (calc_preimage_spec_gen H c b cm _ Hwf Hs Hc) as [_ [Hp _]]. exact Hp. Qed.
+Print Assumptions C09_calc_preimage_gen.
 
 (* C09_aux: the auxiliary-data hash of the body is the hash of the auxiliary data the transaction carries, as serialised *)
 Theorem C09_aux : forall (H : bytes -> bytes) (b : builder) (t : tx),
@@ -189,10 +213,25 @@ Theorem C09_stale_hash_not_detected : forall H : bytes -> bytes,
 Proof. exact stale_hash_not_detected. Qed.
 Print Assumptions C09_stale_hash_not_detected.
 
+
+(* known class C09-stale-input-language (shared root with C10-stale-spend-witness / C18-input-readded-with-other-owner):
+   an input added with a Plutus witness and then again as a key input keeps the witness registered; when the input
+   builder still returns another Plutus witness, the stale one's language goes into the hash although nothing of it is emitted — without the premise known_stale_lang = false the statement is false *)
+Theorem C09_stale_lang_refuted :
+  exists p_hashed p_ledger,
+    calc_preimage_gen true stale_lang_builder stale_lang_cm = Ok (Some p_hashed) /\
+    (let fs := ws_fields (get_witness_set stale_lang_builder) in
+     p_ledger = ledger_preimage (assoc_field 5 fs) (assoc_field 4 fs) (spec_views (langs_used stale_lang_builder) stale_lang_cm)) /\
+    p_hashed <> p_ledger /\
+    known_stale_lang_gen true stale_lang_builder = true /\
+    calc_preimage_gen false stale_lang_builder stale_lang_cm = Ok (Some p_ledger).
+Proof. exact stale_lang_refuted. Qed.
+Print Assumptions C09_stale_lang_refuted.
+
 (* calc_script_data_hash on a builder without script items is a no-op: a hash stored earlier is kept (the reason for
    the premise `has_script_items b0 \/ hash b0 = None` above) *)
 Theorem C09_calc_noop_keeps_hash : forall (H : bytes -> bytes) (b : builder) (cm : costmdls),
-  has_script_items b = false -> wf_builder b -> calc_script_data_hash H b cm = Ok b.
+  has_script_items b = false -> wf_builder b -> known_stale_lang b = false -> calc_script_data_hash H b cm = Ok b.
 Proof. exact calc_noop_keeps_hash. Qed.
 Print Assumptions C09_calc_noop_keeps_hash.
 
@@ -221,6 +260,7 @@ Theorem C09_same_bytes_history_bytes : forall (H : bytes -> bytes) (ops : list o
   let b := fst (run H builder_new ops) in
   is_ok (calc_script_data_hash H b0 cm) = true ->
   has_script_items b0 || is_none (b_script_data_hash b0) = true ->
+  known_stale_lang b0 = false ->
   build_tx H b = Ok t ->
   Forall (fun kv => item_wf (snd kv) = true) (ws_fields (tx_witness_set t)) ->
   exists sl, map_slices (ws_bytes (tx_witness_set t)) = Ok sl /\
@@ -251,6 +291,7 @@ Theorem C09_judge_accepts_model : forall (H : bytes -> bytes) (ops : list op) (c
   last_calc_rev (rev ops) = Some (cm, before) ->
   is_ok (calc_script_data_hash H (fst (run H builder_new (rev before))) cm) = true ->
   has_script_items (fst (run H builder_new (rev before))) || is_none (b_script_data_hash (fst (run H builder_new (rev before)))) = true ->
+  known_stale_lang (fst (run H builder_new (rev before))) = false ->
   other_ok other -> len (body_fields other t) < two64 ->
   hash_ok (tx_script_data_hash t) -> hash_ok (tx_aux_data_hash t) ->
   Forall (fun kv => item_wf (snd kv) = true) (ws_fields (tx_witness_set t)) ->
@@ -269,12 +310,12 @@ Definition ex_w (s : script_source) (d : datum_source) (tag idx : N) : witness :
 Definition ex_cm : costmdls := mk_costmdls (Some [1; -2; 300]%Z) (Some [0; 70000]%Z) (Some [5]%Z).
 (* spends with a duplicated datum, a reference script, a mint, an extra datum; calc after everything, then metadata *)
 Definition ex_ops : list op :=
-  [ OpSetSub SubCollateral [] 1;
-    OpSetSub SubInputs [ex_w (SrcScript ex_script1) (DatumValue ex_datum_a) 0 0;
-                        ex_w (SrcScript ex_script1) (DatumValue ex_datum_a) 0 1;
-                        ex_w (SrcRef V2) DatumRef 0 2] 3;
+  [ OpSetSub SubCollateral (mk_sub [] [] []) 1;
+    OpSetSub SubInputs (mk_sub [ex_w (SrcScript ex_script1) (DatumValue ex_datum_a) 0 0;
+                                ex_w (SrcScript ex_script1) (DatumValue ex_datum_a) 0 1;
+                                ex_w (SrcRef V2) DatumRef 0 2] [V1] [[130; 0; 1]; [130; 0; 1]]) 3;
     OpAddExtraDatum ex_datum_b; OpAddExtraDatum ex_datum_a;
-    OpSetSub SubMint [ex_w (SrcScript ex_script2) DatumNone 1 0] 0;
+    OpSetSub SubMint (mk_sub [ex_w (SrcScript ex_script2) DatumNone 1 0] [] [[130; 0; 2]]) 0;
     OpCalc ex_cm;
     OpAddMetadatum 674 [97; 104] ].
 Definition idH (bs : bytes) : bytes := bs.
@@ -283,10 +324,13 @@ Example C09_history_premises_satisfiable :
     last_calc_rev (rev ex_ops) = Some (ex_cm, before) /\
     is_ok (calc_script_data_hash idH (fst (run idH builder_new (rev before))) ex_cm) = true /\
     has_script_items (fst (run idH builder_new (rev before))) = true /\
+    known_stale_lang (fst (run idH builder_new (rev before))) = false /\      (* a stale PlutusV1 witness, but V1 is in use anyway *)
     build_tx idH (fst (run idH builder_new ex_ops)) = Ok t /\
     (* V2 (used by the reference script and the mint) and V1, not V3; the duplicated datum once, extra datum kept *)
     tx_script_data_hash t <> None /\ is_some (tx_aux_data_hash t) = true /\
-    assoc_field 4 (ws_fields (tx_witness_set t)) = Some [217; 1; 2; 159; 24; 42; 159; 1; 2; 255; 255].
+    assoc_field 4 (ws_fields (tx_witness_set t)) = Some [217; 1; 2; 159; 24; 42; 159; 1; 2; 255; 255] /\
+    (* the two equal native scripts of the inputs once, then the mint's *)
+    assoc_field 1 (ws_fields (tx_witness_set t)) = Some [217; 1; 2; 130; 130; 0; 1; 130; 0; 2].
 Proof. eexists _, _. repeat split; try reflexivity. vm_compute. discriminate. Qed.
 Example C09_helper_premises_satisfiable :
   helper_out_of_scope one_redeemer (Some (mk_plist [ex_datum_a; ex_datum_b] (Some true))) = false /\
@@ -310,7 +354,11 @@ Example C09_bytes_premise_satisfiable :
   | _ => False
   end.
 Proof. vm_compute. reflexivity. Qed.
-Example C09_additive_premise_satisfiable : additive idH builder_new ex_ops = true.
+Example C09_additive_premise_satisfiable :
+  additive idH builder_new
+    [ OpSetSub SubCollateral (mk_sub [] [] []) 1;
+      OpSetSub SubInputs (mk_sub [ex_w (SrcScript ex_script1) (DatumValue ex_datum_a) 0 0; ex_w (SrcRef V2) DatumRef 0 1] [] []) 2;
+      OpAddExtraDatum ex_datum_b; OpCalc ex_cm; OpAddMetadatum 674 [97; 104] ] = true.
 Proof. reflexivity. Qed.
 Example C09_wire_premises_satisfiable :
   let w := WAlonzo (Some [(1, [24; 42])]) (Some [128]) (Some []) (Some [[1; 2]]) None in
